@@ -80,17 +80,21 @@ OUTSIDE = [
     "the tie order chosen by NumPy's unstable argsort on other CPUs (the in-region results may differ there; everything outside the regions does not depend on it)",
 ]
 BOUNDS = {
-    "quick": dict(percentile="float data {0,1,3}: length 1..3 with <= 3 chunks (every chunking, size-0 chunks), 10 q specifications x 5 methods; length 4 with <= 2 chunks, "
-                             "4 q specifications; int64 data {0,1,3}: length 1..3, <= 2 chunks, 4 q; data {-inf,0,inf}: length 1..3, <= 3 chunks, methods lower/higher/nearest, 4 q",
-                  merge="1..2 summaries; grid in {[0,50,100], [0,0,50,100,100], [0,25,75,100], [20,60]}; base in {0,1}; 2 step patterns; N in {1,3} (second summary also 0); "
-                        "3 final q vectors x 5 methods",
-                  nanpercentile="shapes (3,) (2,2) (1,3) (2,3) (3,2), <= 2 chunks per axis (every chunking), 4 NaN/value patterns, every axis; (2,2,2) with <= 2 chunks on two axes; "
-                                "q in {50, [0,25,100], [30.0,30.0]} x 5 methods, keepdims for linear / lower; inf table for lower/higher/nearest on (2,2) (3,)"),
-    "thorough": dict(percentile="float data {0,1,3}: length 1..4 with <= 3 chunks and length 5 with <= 2 chunks, 16 q specifications x 5 methods; length 1..3 with <= 4 chunks; "
-                                "4 values {0,1,2,5} length <= 3; int64 length 1..4 <= 3 chunks; inf data length 1..4",
-                     merge="1..3 summaries (3: reduced tables), base in {0,1,4}, 3 step patterns, N in {1,2,3} / 0, 5 final q vectors",
-                     nanpercentile="additionally shapes (4,) (2,4) (3,3), <= 3 chunks per axis for the small shapes, every value assignment over {0,1,nan} for (2,2) (1,3) (3,), "
-                                   "tuple axes (0,1), int64 data, more q"),
+    "quick": dict(percentile="float data over {0,1,3}: length 1..2 with <= 3 chunks and length 3 with <= 2 chunks (EVERY chunking, size-0 chunks anywhere, EVERY value assignment), "
+                             "q in {[0,100], [0,25,25,75,100], [10,90], [0.,33.3,100.]} x 5 methods; length 3 in exactly 3 chunks, q in {50, [0.,12.5,100.]}; length 4 over {0,1} with "
+                             "<= 2 chunks, q in {[0,50,100], array[0,0,100,100]}; int64 over {0,1,3}: length 1..3, <= 2 chunks, q in {[0,25,25,75,100], 0}; {-inf,0,inf}: length 1..3, "
+                             "<= 2 chunks, methods lower/higher/nearest, 2 q; long arrays (arange(n) and an unsorted pattern with duplicates), n in {5,7,10,14}, chunked as one chunk / "
+                             "two halves / (n//3, 0, rest), 4 non-dyadic q vectors x 5 methods",
+                  merge="1..2 summaries; grids {[0,50,100], [0,0,50,100,100], [20,60]}; base value in {0,1}; 2 step patterns (first) / 1 (second); N in {1,3} (first) / {0,2} (second); "
+                        "final q in {[0,10,35,50,50,80,100], [5,95]} x 5 methods",
+                  nanpercentile="shapes (3,) (2,2) (1,3) (2,3), <= 2 chunks per axis (every chunking), 3 NaN/value patterns, every axis (-1, 0, .., ndim-1); (2,2,2) with <= 2 chunks on the "
+                                "last two axes, 2 patterns; q in {50, [0,25,100], [30.,30.]} x 5 methods, keepdims for linear / lower; +-inf patterns with lower/higher/nearest on (3,) (2,2)"),
+    "thorough": dict(percentile="float over {0,1,3}: length 1..3 with <= 3 chunks x 8 q specifications; length 4 with <= 3 chunks x 3 q; length 1..3 with <= 2 chunks x the other 8 q; "
+                                "length 5 over {0,1} with <= 2 chunks; length 2..3 in exactly 4 chunks; 4 values {0,1,2,5} length 3; int64 and +-inf: length 1..3, <= 3 chunks, 4 q; "
+                                "long arrays n = 5..30 (3 layouts, 2 patterns, 8 q) and int64 long arrays n in {5,8,13,21}",
+                     merge="2 summaries over 5 grids (incl. [0,25,75,100], [0,100]), bases {0,1,4}, up to 3 step patterns, N in {1,2,3} / 0, up to 5 final q vectors; 3 summaries over reduced tables",
+                     nanpercentile="additionally shapes (4,) (3,2) (2,4) (3,3), tuple axis (0,1), 4 patterns, 4..6 q specifications; <= 3 chunks per axis for (3,) (2,2) (2,3); EVERY value "
+                                   "assignment over {0,1,nan} for (3,) (2,2); (2,2,2) with <= 2 chunks on every axis; int64 data"),
 }
 
 # ----------------------------------------------------------------------------------------------------------------------------------
@@ -116,7 +120,7 @@ OPEN_REGIONS = {
         "q values whose products q * N are not exact in binary64 (33.3, 2.21, ...), methods lower / higher / midpoint: merge_percentiles looks the desired count "
         "q * sum(Ns) up in cumsum(diff(calc_q) * N) with searchsorted, i.e. it relies on EXACT float equality; one ulp of difference selects the neighbouring summary "
         "point. Then q=100 does not give the maximum (lower, midpoint) and a single chunk does not reproduce np.percentile. "
-        "Reproduce: da.percentile(da.from_array(np.arange(14.), chunks=14), [0, 2.21, 100.0], method='lower').compute() -> [0., 0., 0.] (q=100 must give 13.)."),
+        "Reproduce: da.percentile(da.from_array(np.arange(5.), chunks=5), [2.21, 100.0], method='lower').compute() -> [0., 0.] (q=100 must give 4.; np.percentile gives [0., 4.])."),
     "int_dtype_declared": (
         "da.percentile of an integer array with method in {lower, higher, nearest}: the lazy result declares float64 (meta is computed as int / 0.5) but the computed "
         "array is int64 (np.percentile keeps the integer dtype for methods that pick data points). "
@@ -296,14 +300,25 @@ def digits(i, base, n):
     return out
 
 
-def mk_percentile(tag, table, dtype, spec, qsel, methods):
+LONG_PATTERNS = (lambda n: list(range(n)), lambda n: [(i * 5) % 8 for i in range(n)])       # distinct ascending values / unsorted values with duplicates
+
+
+def halves(ns):
+    """layouts of the long-array obligations: one chunk, two halves, three chunks with an empty one in the middle"""
+    return [(n, ch) for n in ns for ch in ((n,), (n // 2, n - n // 2), (n // 3, 0, n - n // 3))]
+
+
+def mk_percentile(tag, table, dtype, spec, qsel, methods, lay=None):
     """spec: (n, kmin, kmax) triples.  Model variables: layout (index into layouts(spec): length and chunking), x (the element values as the base-len(table)
     digits of one number: few solver variables per path), q (index into Q_SPECS), method"""
-    LAY = layouts(spec)
+    LAY = lay if lay is not None else layouts(spec)
 
     def setup(e):
         n, ch = LAY[e.choice("layout", len(LAY))]
-        x = np.array([table[dg] for dg in digits(e.choice("x", len(table) ** n), len(table), n)], dtype=dtype)
+        if table is None:       # fixed value patterns (longer arrays)
+            x = np.array(LONG_PATTERNS[e.choice("x", len(LONG_PATTERNS))](n), dtype=dtype)
+        else:
+            x = np.array([table[dg] for dg in digits(e.choice("x", len(table) ** n), len(table), n)], dtype=dtype)
         qi = e.pick("q", qsel)
         method = e.pick("method", methods)
         label, q, exact = Q_SPECS[qi]
@@ -350,7 +365,8 @@ def mk_percentile(tag, table, dtype, spec, qsel, methods):
         dfr.finish()
         return repr(r.tolist())
 
-    return ob(f"percentile[{tag},(n,kmin,kmax)={list(spec)},q={len(qsel)},methods={len(methods)}]", setup, run)
+    dom = f"(n,kmin,kmax)={list(spec)}" if lay is None else f"n={sorted({n for n, _ in lay})}"
+    return ob(f"percentile[{tag},{dom},q={len(qsel)},methods={len(methods)}]", setup, run)
 
 
 # ---------------------------------------------------------------------------------------------------------------------------------- (2) merge_percentiles
@@ -517,30 +533,36 @@ def obligations(tier):
     INF3 = (-INF, 0.0, INF)
     if tier == "quick":
         return [
-            mk_percentile("float", F3, "f8", [(1, 1, 3), (2, 1, 3), (3, 1, 2)], (0, 2, 3, 4, 6), METHODS),
-            mk_percentile("float,3 chunks", F3, "f8", [(3, 3, 3)], (1, 5), METHODS),
-            mk_percentile("float,n=4", (0.0, 1.0), "f8", [(4, 1, 2)], (1, 7, 9), METHODS),
+            mk_percentile("float", F3, "f8", [(1, 1, 3), (2, 1, 3), (3, 1, 2)], (0, 2, 4, 6), METHODS),
+            mk_percentile("float,3 chunks", F3, "f8", [(3, 3, 3)], (3, 5), METHODS),
+            mk_percentile("float,n=4", (0.0, 1.0), "f8", [(4, 1, 2)], (1, 9), METHODS),
             mk_percentile("int", I3, "i8", [(1, 1, 2), (2, 1, 2), (3, 1, 2)], (2, 8), METHODS),
             mk_percentile("inf", INF3, "f8", [(1, 1, 2), (2, 1, 2), (3, 1, 2)], (1, 9), PICKING),
+            mk_percentile("long", None, "f8", None, (6, 7, 13, 14), METHODS, lay=halves((5, 7, 10, 14))),
             mk_merge(2, ((0, 1, 3), (0, 1), 2, (1, 3)), ((0, 1, 3), (0, 1), 1, (0, 2)), 2),
             mk_nanpercentile("nan", [(3,), (2, 2), (1, 3), (2, 3)], 2, npat=3),
             mk_nanpercentile("nan3d", [(2, 2, 2)], 2, npat=2, kaxes=(1, 2, 2)),
             mk_nanpercentile("inf", [(3,), (2, 2)], 2, npat=2, methods=PICKING, patterns=INF_PATTERNS),
         ]
     return [
-        mk_percentile("float", F3, "f8", [(1, 1, 3), (2, 1, 3), (3, 1, 3), (4, 1, 3)], (0, 1, 2, 3, 4, 6, 7, 9), METHODS),
-        mk_percentile("float,more q", F3, "f8", [(1, 1, 3), (2, 1, 3), (3, 1, 3)], (5, 8, 10, 11, 12, 13, 14, 15), METHODS),
-        mk_percentile("float,n=5", F3, "f8", [(5, 1, 2)], (1, 2, 6, 14), METHODS),
-        mk_percentile("float,4 chunks", F3, "f8", [(2, 4, 4), (3, 4, 4)], (1, 2, 6, 9), METHODS),
-        mk_percentile("float,4 values", (0.0, 1.0, 2.0, 5.0), "f8", [(3, 1, 3)], (1, 2, 6, 9), METHODS),
-        mk_percentile("int", I3, "i8", [(1, 1, 3), (2, 1, 3), (3, 1, 3), (4, 1, 2)], (1, 2, 3, 6, 8, 9), METHODS),
-        mk_percentile("inf", INF3, "f8", [(1, 1, 3), (2, 1, 3), (3, 1, 3), (4, 1, 2)], (1, 2, 3, 6, 8, 9), PICKING),
-        mk_merge(2, ((0, 1, 2, 3, 4), (0, 1, 4), 3, (1, 2, 3)), ((0, 1, 2, 3, 4), (0, 1, 4), 3, (0, 1, 3)), 5),
-        mk_merge(3, ((0, 1, 3), (0, 1), 2, (1, 3)), ((0, 1, 3), (0, 1), 2, (0, 2)), 3),
-        mk_nanpercentile("nan", [(3,), (4,), (2, 2), (1, 3), (2, 3), (3, 2), (2, 4), (3, 3)], 2, npat=4, nq=6, tuple_axes=True),
-        mk_nanpercentile("nan,3 chunks", [(3,), (2, 2), (1, 3), (2, 3)], 3, npat=4, nq=3),
-        mk_nanpercentile("nan,all values", [(3,), (2, 2), (1, 3)], 2, table=(0.0, 1.0, NAN), nq=3),
-        mk_nanpercentile("nan3d", [(2, 2, 2)], 2, npat=4, nq=3, tuple_axes=True),
+        mk_percentile("float", F3, "f8", [(1, 1, 3), (2, 1, 3), (3, 1, 3)], (0, 1, 2, 3, 4, 6, 7, 9), METHODS),
+        mk_percentile("float,n=4", F3, "f8", [(4, 1, 3)], (2, 6, 9), METHODS),
+        mk_percentile("float,more q", F3, "f8", [(1, 1, 2), (2, 1, 2), (3, 1, 2)], (5, 8, 10, 11, 12, 13, 14, 15), METHODS),
+        mk_percentile("float,n=5", (0.0, 1.0), "f8", [(5, 1, 2)], (1, 2, 6, 14), METHODS),
+        mk_percentile("float,4 chunks", F3, "f8", [(2, 4, 4), (3, 4, 4)], (2, 6, 9), METHODS),
+        mk_percentile("float,4 values", (0.0, 1.0, 2.0, 5.0), "f8", [(3, 1, 2)], (1, 2, 6, 9), METHODS),
+        mk_percentile("int", I3, "i8", [(1, 1, 3), (2, 1, 3), (3, 1, 3)], (1, 2, 6, 8), METHODS),
+        mk_percentile("inf", INF3, "f8", [(1, 1, 3), (2, 1, 3), (3, 1, 3)], (1, 2, 6, 9), PICKING),
+        mk_percentile("long", None, "f8", None, (1, 2, 5, 6, 7, 12, 13, 14), METHODS, lay=halves(tuple(range(5, 31)))),
+        mk_percentile("long int", None, "i8", None, (1, 6, 7, 14), METHODS, lay=halves((5, 8, 13, 21))),
+        mk_merge(2, ((0, 1, 2, 3, 4), (0, 1), 2, (1, 3)), ((0, 1, 2, 3, 4), (0, 1, 4), 2, (0, 2)), 3),
+        mk_merge(2, ((0, 1, 3), (0, 4), 3, (2,)), ((1, 2, 3), (0, 1), 3, (1, 3)), 5),
+        mk_merge(3, ((0, 1, 3), (0, 1), 1, (1, 3)), ((0, 3), (0, 1), 2, (0, 2)), 2),
+        mk_nanpercentile("nan", [(3,), (4,), (2, 2), (1, 3), (2, 3), (3, 2), (2, 4), (3, 3)], 2, npat=4, nq=4, tuple_axes=True),
+        mk_nanpercentile("nan,more q", [(3,), (2, 3)], 2, npat=2, nq=6),
+        mk_nanpercentile("nan,3 chunks", [(3,), (2, 2), (2, 3)], 3, npat=2, nq=3),
+        mk_nanpercentile("nan,all values", [(3,), (2, 2)], 2, table=(0.0, 1.0, NAN), nq=2),
+        mk_nanpercentile("nan3d", [(2, 2, 2)], 2, npat=2, nq=3, tuple_axes=True),
         mk_nanpercentile("int", [(3,), (2, 3)], 2, npat=1, patterns=NAN_PATTERNS[2:3], dtype="i8", nq=6),
         mk_nanpercentile("inf", [(3,), (2, 2), (2, 3)], 2, npat=2, methods=PICKING, patterns=INF_PATTERNS, nq=6),
     ]
